@@ -431,6 +431,8 @@ func runC03(c *Ctx) {
 	checkAddrTypeFollowsBranch(c, "C03-R5")
 	checkImportAddressIDAgreesWithConstructor(c, "C03-R5") // imported keys are found again under the address they map to
 	checkExtKeyAddressesRegisteredForUnlock(c, "C03-R3")
+	checkNoKeyUseAfterZero(c, "C03-R1")
+	checkAccountSchemaOverrideOnBothBranches(c, "C03-R5")
 	checkInvalidationAlwaysEvicts(c, "C03-R4")             // an account object outlives its row only until it is invalidated
 }
 
@@ -643,4 +645,203 @@ func checkExtKeyAddressesRegisteredForUnlock(c *Ctx, rule string) {
 		}
 	}
 	c.Floor(rule, "constructions of addresses from extended keys", n, 3)
+}
+
+// checkNoKeyUseAfterZero (typestate): an extended key is not used after it was zeroed — and neither is the key it was
+// neutered from / into: hdkeychain's Neuter does not copy, the public twin shares the chain code, the parent fingerprint
+// and the cached public key with the private key, so zeroing one wipes the other's chain code. A serialisation taken
+// afterwards parses, but describes another key: the account row then holds an xprv whose children are not the seed's.
+func checkNoKeyUseAfterZero(c *Ctx, rule string) {
+	p := c.P
+	isExtKey := func(t types.Type) bool {
+		if pt, ok := t.(*types.Pointer); ok {
+			t = pt.Elem()
+		}
+		nm, ok := t.(*types.Named)
+		return ok && nm.Obj().Name() == "ExtendedKey"
+	}
+	n := 0
+	for _, fn := range p.FuncsIn("waddrmgr") {
+		var zeros []*ssa.Call
+		for _, ci := range callsOf(fn) {
+			if call, ok := ci.(*ssa.Call); ok && calleeShort(&call.Call) == "Zero" && len(call.Call.Args) > 0 && isExtKey(call.Call.Args[0].Type()) {
+				zeros = append(zeros, call)
+			}
+		}
+		// the same for the symmetric keys (crypto keys, master keys) used through their interface or directly: a key
+		// wiped right after it was generated seals everything that follows under the all-zero key
+		for _, ci := range callsOf(fn) {
+			call, ok := ci.(*ssa.Call)
+			if !ok {
+				continue
+			}
+			recvOf := func(cc *ssa.Call) ssa.Value {
+				if cc.Call.IsInvoke() {
+					return cc.Call.Value
+				}
+				if g := cc.Call.StaticCallee(); g != nil && g.Signature.Recv() != nil && len(cc.Call.Args) > 0 {
+					return cc.Call.Args[0]
+				}
+				return nil
+			}
+			isSymKey := func(v ssa.Value) bool {
+				if v == nil {
+					return false
+				}
+				ts := v.Type().String()
+				return strings.HasSuffix(ts, "EncryptorDecryptor") || strings.HasSuffix(ts, "CryptoKey") || strings.HasSuffix(ts, "cryptoKey") || strings.HasSuffix(ts, "SecretKey")
+			}
+			name := calleeShort(&call.Call)
+			if call.Call.IsInvoke() {
+				name = call.Call.Method.Name()
+			}
+			zr := recvOf(call)
+			if name != "Zero" || !isSymKey(zr) {
+				continue
+			}
+			// only keys created in this function (a fresh local), not fields of the manager wiped on purpose
+			if _, isFld, _, okf := fieldOf(stripConv(zr)); okf && isFld != "" {
+				continue
+			}
+			n++
+			var def ssa.Instruction
+			switch d := stripConv(zr).(type) {
+			case *ssa.Extract:
+				def, _ = d.Tuple.(ssa.Instruction)
+			case ssa.Instruction:
+				def = d
+			}
+			z := call
+			q := &PathQuery{Fn: fn, Barrier: func(ins ssa.Instruction) bool { return def != nil && ins == def }}
+			q.Target = func(ins ssa.Instruction, _ *ssa.BasicBlock) bool {
+				cc, ok := ins.(*ssa.Call)
+				if !ok || cc == z {
+					return false
+				}
+				nm := calleeShort(&cc.Call)
+				if cc.Call.IsInvoke() {
+					nm = cc.Call.Method.Name()
+				}
+				if nm == "Zero" {
+					return false
+				}
+				r := recvOf(cc)
+				return r != nil && stripConv(r) == stripConv(zr)
+			}
+			hits := q.From(z)
+			detail := ""
+			if len(hits) > 0 {
+				detail = fnName(fn) + " uses a key at " + p.Pos(hits[0].Ins.Pos()) + " after it was zeroed (a wipe that was meant to be deferred): everything sealed with it from then on is sealed under the all-zero key, readable from the file without any passphrase"
+			}
+			c.Check(rule, "no-key-use-after-zero:"+fnName(fn)+"/sym", z.Pos(), len(hits) == 0, detail)
+		}
+		if len(zeros) == 0 {
+			continue
+		}
+		// storage-sharing twins: x and x.Neuter()
+		twin := func(a, b ssa.Value) bool {
+			a, b = stripConv(a), stripConv(b)
+			if a == b {
+				return true
+			}
+			neuterOf := func(v ssa.Value) ssa.Value {
+				for _, o := range (&Slicer{P: p, KeepExtract: true}).Origins(v) {
+					if ex, ok := o.(*ssa.Extract); ok {
+						if call, ok := ex.Tuple.(*ssa.Call); ok && calleeShort(&call.Call) == "Neuter" && len(call.Call.Args) > 0 {
+							return stripConv(call.Call.Args[0])
+						}
+					}
+				}
+				return nil
+			}
+			same := func(x, y ssa.Value) bool {
+				if x == nil || y == nil {
+					return false
+				}
+				if x == y {
+					return true
+				}
+				for _, ox := range (&Slicer{P: p, KeepExtract: true}).Origins(x) {
+					for _, oy := range (&Slicer{P: p, KeepExtract: true}).Origins(y) {
+						if ox == oy {
+							return true
+						}
+					}
+				}
+				return false
+			}
+			return same(neuterOf(a), b) || same(neuterOf(b), a) || same(a, b)
+		}
+		for _, z := range zeros {
+			n++
+			zk := z.Call.Args[0]
+			// a key created inside a loop is a new object on every iteration: passing its definition again ends the
+			// lifetime of the zeroed one
+			var def ssa.Instruction
+			switch d := stripConv(zk).(type) {
+			case *ssa.Extract:
+				def, _ = d.Tuple.(ssa.Instruction)
+			case ssa.Instruction:
+				def = d
+			}
+			q := &PathQuery{Fn: fn, Barrier: func(ins ssa.Instruction) bool { return def != nil && ins == def }}
+			q.Target = func(ins ssa.Instruction, _ *ssa.BasicBlock) bool {
+				call, ok := ins.(*ssa.Call)
+				if !ok || call == z || len(call.Call.Args) == 0 || calleeShort(&call.Call) == "Zero" {
+					return false
+				}
+				// a method of the key type called on the zeroed key or its twin
+				g := call.Call.StaticCallee()
+				if g == nil || g.Signature.Recv() == nil || !isExtKey(g.Signature.Recv().Type()) {
+					return false
+				}
+				return isExtKey(call.Call.Args[0].Type()) && twin(call.Call.Args[0], zk)
+			}
+			hits := q.From(z)
+			detail := ""
+			if len(hits) > 0 {
+				detail = fnName(fn) + " uses an extended key at " + p.Pos(hits[0].Ins.Pos()) + " after it — or the key it was neutered from/into, which shares its chain code — was zeroed: what is derived or serialised from it afterwards belongs to another key"
+			}
+			c.Check(rule, "no-key-use-after-zero:"+fnName(fn), z.Pos(), len(hits) == 0, detail)
+		}
+	}
+	c.Floor(rule, "non-deferred zeroings of extended keys", n, 3)
+}
+
+// checkAccountSchemaOverrideOnBothBranches: an imported account may carry its own address schema, for BOTH branches.
+// The function that answers "which address type does this account use on this branch" asks whether the account has an
+// override on every path to its answer: no return is reachable without having passed the nil test of the account's
+// schema (a test that is skipped for one branch silently encodes that branch's addresses in the scope's format).
+func checkAccountSchemaOverrideOnBothBranches(c *Ctx, rule string) {
+	p := c.P
+	fn := p.Func("waddrmgr", "ScopedKeyManager", "accountAddrType")
+	if fn == nil {
+		c.Unresolved(rule, "ScopedKeyManager.accountAddrType")
+		return
+	}
+	isOverrideTest := func(ins ssa.Instruction) bool {
+		iff, ok := ins.(*ssa.If)
+		if !ok {
+			return false
+		}
+		if k, ok := nilKey(iff.Cond); ok && k == "n:addrSchema" {
+			return true
+		}
+		return false
+	}
+	n := 0
+	for _, f := range p.regionOf(fn) {
+		for _, b := range f.Blocks {
+			for _, ins := range b.Instrs {
+				if isOverrideTest(ins) {
+					n++
+				}
+			}
+		}
+	}
+	q := &PathQuery{Fn: fn, Barrier: isOverrideTest}
+	q.Target = func(ins ssa.Instruction, _ *ssa.BasicBlock) bool { _, ok := ins.(*ssa.Return); return ok }
+	hits := q.From(nil)
+	c.Check(rule, "account-schema-override-asked-on-every-path", fn.Pos(), n > 0 && len(hits) == 0,
+		"accountAddrType can answer without having asked whether the account carries its own address schema: for an imported account whose override differs from the scope on that branch, every address of the branch is issued, looked up and reloaded in the scope's format")
 }
